@@ -2,10 +2,12 @@ package sim
 
 import (
 	"bytes"
+	"encoding/json"
 	"fmt"
 	"math/big"
 	"sort"
 
+	"github.com/tellor-io/layer/app"
 	bridgetypes "github.com/tellor-io/layer/x/bridge/types"
 )
 
@@ -17,10 +19,11 @@ type OracleC16 struct {
 	lastTs   uint64
 	accepted map[uint64]bool // checkpoint index whose step the contract model accepted
 	tried    map[uint64]int
+	sentBy   map[string]map[string]bool // "<checkpoint timestamp>|<signature hex>" -> EVM addresses of the validators whose vote extension carried it
 }
 
 func NewOracleC16() *OracleC16 {
-	return &OracleC16{counters: newCounters(), lastIdx: -1, accepted: map[uint64]bool{}, tried: map[uint64]int{}}
+	return &OracleC16{counters: newCounters(), lastIdx: -1, accepted: map[uint64]bool{}, tried: map[uint64]int{}, sentBy: map[string]map[string]bool{}}
 }
 func (o *OracleC16) ID() string { return "C16" }
 
@@ -112,6 +115,7 @@ func (o *OracleC16) AfterBlock(c *Chain, b *BlockCtx) []*Violation {
 	}
 	v := c.ViewOf(b.Ref)
 	bk := b.Ref.App.BridgeKeeper
+	o.recordSenders(c, b, v)
 	strict, loose := o.referenceSets(v)
 	if len(loose) == 0 {
 		return nil
@@ -267,6 +271,12 @@ func (o *OracleC16) relay(c *Chain, b *BlockCtx, v *View) []*Violation {
 				continue
 			}
 			s, ok := RelayerSig(raw, curParams.Checkpoint, m.Addr)
+			if !ok && o.sentBy[fmt.Sprintf("%d|%x", tsCur.Timestamp, raw)][string(m.Addr)] {
+				// the member itself published bytes that are no signature of its own (a Byzantine validator spoiling its
+				// own slot): a relayer leaves that slot empty, the member simply has not signed
+				o.count("own_slot_spoiled_by_its_owner(treated as unsigned)")
+				continue
+			}
 			if !ok {
 				out = append(out, o.v(b.H, "light-client", "BridgeValsetSignaturesMap", "slot-holds-foreign-signature", "checkpoint %d: slot %d does not hold a signature of member %d (%x) of the previous set over the new checkpoint", i, j, j, m.Addr[:4]))
 				o.tried[i] = 1 << 20
@@ -299,3 +309,34 @@ func (o *OracleC16) relay(c *Chain, b *BlockCtx, v *View) []*Violation {
 }
 
 func (o *OracleC16) End(c *Chain) []*Violation { return nil }
+
+// recordSenders notes, from the extended commit embedded in the block's accepted proposal, which validator's vote
+// extension carried which validator-set signature bytes.
+func (o *OracleC16) recordSenders(c *Chain, b *BlockCtx, v *View) {
+	var inj app.VoteExtTx
+	if b.H <= 1 || len(b.Req.Txs) == 0 || json.Unmarshal(b.Req.Txs[0], &inj) != nil {
+		return
+	}
+	for _, vt := range inj.ExtendedCommitInfo.Votes {
+		if vt.BlockIdFlag != 2 {
+			continue
+		}
+		ci := c.consIdxByAddr(vt.Validator.Address)
+		if ci < 0 {
+			continue
+		}
+		var ve app.BridgeVoteExtension
+		if json.Unmarshal(vt.VoteExtension, &ve) != nil || len(ve.ValsetSignature.Signature) == 0 {
+			continue
+		}
+		e, err := v.n.App.BridgeKeeper.OperatorToEVMAddressMap.Get(v.ctx, ValAddr(c.Keys.ValOp[ci]).String())
+		if err != nil {
+			continue
+		}
+		k := fmt.Sprintf("%d|%x", ve.ValsetSignature.Timestamp, ve.ValsetSignature.Signature)
+		if o.sentBy[k] == nil {
+			o.sentBy[k] = map[string]bool{}
+		}
+		o.sentBy[k][string(e.EVMAddress)] = true
+	}
+}
